@@ -18,6 +18,10 @@ CHECKS = {
          "Exploration: every a,b,n in [-8,8] and every combination of 7 int extremes per argument position walk in lock-step with a math/big model (<=64 steps, so termination is decided without running 2^63 steps); groupBy for all lengths 0..40 x n in [-2,12] x 4 element types x 4 container forms against the partition laws and against the second implementation; len against Go's len.",
          "An iterator agreeing with the model for 64 steps on a longer interval is accepted without being run to its end.",
          "DESIGN.md §4 C19"),
+ "C10": ("explicit-state enumeration of all short New/Set histories + rapid long random histories; chain-of-maps reference model read out after every step",
+         "Exploration: every history of length <=4 (quick: 3) over <=4 contexts, 3 keys (one a built-in helper name), values {1,2,nil} and 6 root constructors is executed against the real Context and a reference model, comparing Value and Has for every (context,key) pair after every step; plus thousands of random histories of up to 300 operations.",
+         "Sequential histories only; functions compared by code pointer.",
+         "DESIGN.md §4 C10"),
 }
 
 NOT_BUILT = "check not built yet in this session (see DESIGN.md §4 for its plan); will be claimed once its check is committed"
